@@ -3,6 +3,7 @@ import Sudachi.Proofs.LayersBuild
 import Sudachi.Proofs.LayersLoad
 import Sudachi.Proofs.LayersRefs
 import Sudachi.Proofs.LayersLimit
+import Sudachi.Proofs.LayersReads
 /-!
 # C12 — Layered user dictionaries keep ids, parts of speech and references straight
 
@@ -987,5 +988,112 @@ example : ∃ s : LexSet, IdsOk s ∧ s.lexicons.length = 15 :=
     rw [List.getElem?_map, List.getElem?_range hi] at hl
     simp at hl
     rw [← hl], by simp⟩
+
+/-! ### round e: the POS intern table across several `read_lexicon` calls, failing ones included -/
+
+/-- "its part of speech is exactly the part-of-speech strings declared for it in its source - including parts of speech that
+exist only in a user dictionary", build side, for a builder that is USED FURTHER after `read_lexicon` failed: whatever sequence
+of succeeding and failing `read_lexicon` calls `srcs` the builder `new_user` (over a dictionary with the duplicate-free POS
+list `g`) went through - every line may be well-formed, malformed in a column before the splits, an A-mode row with splits, a
+row with an empty surface, ... - if `resolve` + `compile` succeed then the written own-POS table `own` reads back, the compiled
+dictionary has exactly one word per KEPT row (`keptSources`: for every call the rows in front of its first rejected line, all
+rows of a call that succeeded - `kept_rows_of_a_source`), in that order, and the POS id stored for the i-th kept row names that
+row's declared POS in `g ++ own`: ids handed out during a call that was rejected later stay valid, because `pos_of` only
+appends to the table and nothing ever removes a row (`Extends.trans`). -/
+theorem pos_ids_stable_across_failed_reads (g : List Pos) (sw : List SysWord) (srcs : List (List Line)) (b : Built)
+    (hnd : g.Nodup) (hle : g.length ≤ 32768) (h : (buildReads (some (g, sw)) srcs).2 = .ok b) :
+    ∃ own, readPosTable b = .ok own ∧ b.words.length = (keptSources (preloadPos g) srcs).length ∧
+      ∀ (i : Nat) (row : Row), (keptSources (preloadPos g) srcs)[i]? = some row →
+        ∃ wd, b.words[i]? = some wd ∧ (g ++ own)[wd.posId]? = some row.pos := by
+  have hext := readSources_extends srcs (preloadPos g) (preloadPos_spec g hnd hle).2.1
+  unfold buildReads startReader at h
+  cases hrs : readSources (preloadPos g) srcs with
+  | mk r fs =>
+    rw [hrs] at h hext
+    exact finishBuild_pos_numbering g sw r _ b hnd hle hext h
+
+/-- what "kept" means for one `read_lexicon` call in any builder state `r`: a prefix of the lines of the source - all of them
+when the call returns `Ok`, the lines in front of the rejected one when it returns `Err` -/
+theorem kept_rows_of_a_source (r : Reader) (ls : List Line) :
+    ∃ k, keptSource r ls = (ls.take k).map (·.row) ∧
+      ((readSourceK r ls).2 = none → k = ls.length) ∧ ((readSourceK r ls).2 ≠ none → k < ls.length) :=
+  keptSource_prefix ls r
+
+/-- `pos_ids_stable_across_failed_reads` composed with `pos_rebase_correct` (builder + loader): a user dictionary compiled by
+the REPAIRED `new_user` against any dictionary whose POS list is `sys ++ extra` (`num_system_pos = |sys|`) by a builder that
+went through ANY sequence of succeeding and failing `read_lexicon` calls, loaded as the (j+1)-th dictionary of any stack over
+the same system dictionary under any plugin registrations: the i-th kept row is word `i` of dictionary `j+1` and its reported
+POS id names exactly the POS strings of that row's own CSV line. -/
+theorem declared_pos_reported_after_failed_reads (sys extra : List Pos) (sw : List SysWord) (sysLex : Lexicon)
+    (plugs : List (Bool × Pos)) (us : List (List Pos × Lexicon)) (D : Dict)
+    (hload : load sys sysLex plugs us = .ok D)
+    (hnd : sys.Nodup) (hle : sys.length ≤ 32768) (hsmall : D.posList.length ≤ 65536)
+    (j : Nat) (srcs : List (List Line)) (b : Built) (own : List Pos) (lex : Lexicon)
+    (hb : (buildReads (some (preOf .sysOnly ⟨sys ++ extra, sys.length, sw⟩)) srcs).2 = .ok b)
+    (hown : readPosTable b = .ok own) (hlex : lex.words = b.words)
+    (hj : us[j]? = some (own, lex)) (i : Nat) (row : Row)
+    (hi : (keptSources (preloadPos sys) srcs)[i]? = some row) (hi28 : i < P28) :
+    ∃ wi, D.set.getWordInfo (mkRaw (1 + j) i) = .ok wi ∧ D.posList[wi.posId]? = some row.pos := by
+  have hb' : (buildReads (some (sys, sw)) srcs).2 = .ok b := by
+    simpa [preOf] using hb
+  obtain ⟨own', hown', _, hall⟩ := pos_ids_stable_across_failed_reads sys sw srcs b hnd hle hb'
+  rw [hown] at hown'
+  have : own = own' := Outcome.ok.inj hown'
+  subst this
+  obtain ⟨wd, hwd, hpos⟩ := hall i row hi
+  obtain ⟨plug, ids, _, _, hrb⟩ := pos_rebase_correct sys sysLex plugs us D hload
+  obtain ⟨wi, hwi, hsys, husr⟩ := hrb j own lex hj i wd (by rw [hlex]; exact hwd) hi28
+  refine ⟨wi, hwi, ?_⟩
+  by_cases hlt : wd.posId < sys.length
+  · rw [(hsys hlt).2, ← hpos, List.getElem?_append_left hlt]
+  · have hge : sys.length ≤ wd.posId := by omega
+    have hbound : wd.posId < (sys ++ own).length := by
+      by_cases hb'' : wd.posId < (sys ++ own).length
+      · exact hb''
+      · rw [List.getElem?_eq_none (by omega)] at hpos; cases hpos
+    have hown_lt : wd.posId - sys.length < own.length := by simp at hbound; omega
+    rw [((husr hge).2 hown_lt hsmall).2, ← hpos, List.getElem?_append_right hge]
+
+/-- The "clean-up" of `seeded/C12e` (a failing `read_bytes` truncates the POS table back to its length before the call while
+the rows in front of the rejected line stay) is NOT the code and the theorem tells the two apart: system POS `[[1]]`; first
+source = a row with the new POS `[2]` and a line with a malformed column, second source = a row with the new POS `[3]`.
+The code keeps both rows with ids 1 and 2 over the table `[[2], [3]]`; the truncating reader hands id 1 out twice, writes the
+table `[[3]]`, and the first kept row reports `[3]` instead of its declared `[2]`. -/
+theorem truncating_reader_counterexample :
+    let g : List Pos := [[1]]
+    let srcs : List (List Line) := [[⟨⟨10, 10, 10, 0, [2], [], [], []⟩, 0⟩, ⟨⟨11, 11, 11, 0, [4], [], [], []⟩, 1⟩],
+                                    [⟨⟨12, 12, 12, 0, [3], [], [], []⟩, 0⟩]]
+    (keptSources (preloadPos g) srcs).map (fun r => (r.surface, r.pos)) = [(10, [2]), (12, [3])] ∧
+    (buildReads (some (g, [])) srcs).2 = .ok ⟨2, [[2], [3]], [⟨1, [], [], []⟩, ⟨2, [], [], []⟩]⟩ ∧
+    finishBuild (some (g, [])) (readSourcesTrunc (preloadPos g) srcs).1 = .ok ⟨1, [[3]], [⟨1, [], [], []⟩, ⟨1, [], [], []⟩]⟩ ∧
+    (g ++ [[3]])[1]? ≠ some [2] := by
+  decide
+
+/-- the hypotheses of `pos_ids_stable_across_failed_reads` / `declared_pos_reported_after_failed_reads` are satisfiable together
+with rejected calls of every modelled kind in between: system POS `[[1]]`; source 1 = a row with the new POS `[2]`, then an
+A-mode row with an inline unit of the new POS `[5]` and the own new POS `[6]` (rejected: `InvalidSplit`, both POS stay in the
+table); source 2 = a line with an empty surface and the new POS `[7]` (rejected after interning); source 3 = a line with a
+malformed column (nothing interned), source 4 = a row with the new POS `[3]`.  Two rows are kept, with ids 1 and 5 over the
+written table `[[2], [5], [6], [7], [3]]`; loaded as dictionary 1 under a plugin registering a further POS the second word reports
+id 6 = `[3]`. -/
+example :
+    let srcs : List (List Line) :=
+      [[⟨⟨10, 10, 10, 0, [2], [], [], []⟩, 0⟩, ⟨⟨11, 11, 11, 0, [6], [.inline 10 [5] 10], [], []⟩, 0⟩, ⟨⟨13, 13, 13, 0, [2], [], [], []⟩, 0⟩],
+       [⟨⟨11, 11, 11, 2, [7], [], [], []⟩, 2⟩], [⟨⟨11, 11, 11, 0, [8], [], [], []⟩, 1⟩], [⟨⟨12, 12, 12, 0, [3], [], [], []⟩, 0⟩]]
+    let ws : List Word := [⟨1, [], [], []⟩, ⟨5, [], [], []⟩]
+    (readSources (preloadPos [[1]]) srcs).2 = [(1, some (.err .invalidSplit)), (0, some .emptySurface), (0, some .malformed), (1, none)] ∧
+    (keptSources (preloadPos [[1]]) srcs).map (fun r => (r.surface, r.pos)) = [(10, [2]), (12, [3])] ∧
+    (buildReads (some (preOf .sysOnly ⟨[[1]] ++ [[9]], 1, []⟩)) srcs).2 = .ok ⟨5, [[2], [5], [6], [7], [3]], ws⟩ ∧
+    (match load [[1]] ⟨[⟨0, [], [], []⟩], 255, []⟩ [(true, [9, 9, 9, 9, 9, 9])] [([[2], [5], [6], [7], [3]], ⟨ws, 255, []⟩)] with
+     | .ok D => decide (D.set.getWordInfo (mkRaw 1 1) = .ok ⟨6, [], [], []⟩) && decide (D.posList[6]? = some [3])
+     | _ => false) = true := by
+  refine ⟨by decide, by decide, by decide, ?_⟩
+  decide
+
+/-- `kept_rows_of_a_source` is about both outcomes of a call: a source that is read to its end and one that is cut -/
+example :
+    (readSourceK (preloadPos [[1]]) [⟨⟨10, 10, 10, 0, [2], [], [], []⟩, 0⟩]).2 = none ∧
+    (readSourceK (preloadPos [[1]]) [⟨⟨10, 10, 10, 0, [2], [], [], []⟩, 0⟩, ⟨⟨11, 11, 11, 0, [2], [], [], []⟩, 1⟩]).2 ≠ none := by
+  decide
 
 end C12
